@@ -986,4 +986,31 @@ the LAST component of the others still counts as similar -/
 example : blockSimilarity [[1, 2, 3], [1, 2]] = some true ∧ blockSimilarity [[1, 2], [1, 2, 3]] = some true ∧
     blockSimilarity [[1, 3], [1, 2, 3]] = some false := by decide
 
+
+private theorem zipAllEq_pos (a b : List Nat) (h : zipAllEq a b = true) (i : Nat) (x y : Nat)
+    (hx : a[i]? = some x) (hy : b[i]? = some y) : x = y := by
+  induction a generalizing b i with
+  | nil => simp at hx
+  | cons p ps ih =>
+    cases b with
+    | nil => simp at hy
+    | cons q qs =>
+      simp only [zipAllEq, Bool.and_eq_true, beq_iff_eq] at h
+      cases i with
+      | zero => simp at hx hy; rw [← hx, ← hy]; exact h.1
+      | succ j => exact ih qs h.2 j (by simpa using hx) (by simpa using hy)
+
+/-- **like with like**: whenever by-component averaging is chosen, at every sorted position that a member and the
+reference member both have, the two components carry the same flags — whatever the component counts. Members holding the
+same kinds in a different radial order are therefore never averaged by component. -/
+theorem blockSimilarity_positions (fls : List (List Nat)) (ref : List Nat) (hr : fls.getLast? = some ref)
+    (h : blockSimilarity fls = some true) :
+    ∀ fl ∈ fls, ∀ (i x y : Nat), fl[i]? = some x → ref[i]? = some y → x = y := by
+  simp only [blockSimilarity, hr, Option.some.injEq, List.all_eq_true] at h
+  intro fl hfl i x y hx hy
+  exact zipAllEq_pos fl ref (h fl hfl) i x y hx hy
+
+/-- a permuted radial order (solid slug + bond around it vs annular slug + bond in the centre) is NOT similar -/
+example : blockSimilarity [[1, 2, 3], [2, 1, 3]] = some false := by decide
+
 end ArmiVerif.XsGroup
